@@ -223,13 +223,18 @@ def split_cases(lines):
     return cases
 
 
+QUICK_SCALE = 5
+
+
 class Stream:
     """one correspondence stream: a component of the harness + a driver sub-command"""
 
     def __init__(self, component, flavour, quick, thorough, driver=None, driver_args=(), tags=None,
                  rtol=1e-9, seeds_thorough=8, corpus=None, canon=None, state_tags=()):
         self.component, self.flavour = component, flavour
-        self.quick, self.thorough = quick, thorough
+        # quick-tier volume: the per-stream figure times QUICK_SCALE (the checks run in seconds, so
+        # the every-change tier can afford a few thousand cases per stream)
+        self.quick, self.thorough = (quick if component == "sched" else quick * QUICK_SCALE), thorough
         self.driver = driver or component
         self.driver_args = list(driver_args)
         self.tags, self.rtol = tags, rtol
